@@ -10,7 +10,7 @@ theorem step_vars (st : St) (op : Op) (r : Res) (hs : step st op = some r) (k : 
     (hk : st.conf? k = some c) (hd : c.defaults = []) (hed : op.editsVars k = false) :
     ∃ c', r.st.conf? k = some c' ∧ c'.variables = c.variables ∧ c'.defaults = [] := by
   obtain ⟨c', h1, h2⟩ :=
-    step_keeps insens_vars (addConfig_keeps_vars k) st op r hs hed (Or.inl insensFlags_vars) c hk hd
+    step_keeps insens_vars (addConfig_keeps_vars k) st op r trivial hs hed (Or.inl insensFlags_vars) c hk hd
   have h3 : c'.variables = c.variables := congrArg Prod.fst h2
   have h4 : c'.defaults = c.defaults := congrArg Prod.snd h2
   exact ⟨c', h1, h3, by rw [h4, hd]⟩
@@ -30,5 +30,518 @@ theorem run_vars (k : Nat) : ∀ (ops : List Op) (st : St) (c : Conf), st.conf? 
       obtain ⟨c1, h1, h2, h3⟩ := step_vars st op r hs k c hk hd (hed op (by simp))
       obtain ⟨c2, h4, h5, h6⟩ := ih r.st c1 h1 h3 (fun o ho => hed o (by simp [ho]))
       exact ⟨c2, h4, by rw [h5, h2], h6⟩
+
+end CfVerif.C05
+
+namespace CfVerif.C05
+open CfVerif Spec
+
+/-! ## the configured list under failed and successful add_config calls -/
+
+/-- the configured list of a LogConfig: the names of its typed variables followed by the names still waiting
+for their type (each `add_variable` call contributes exactly one entry) -/
+def cfgOf (c : Conf) : List Nat := c.variables.map (·.name) ++ c.defaults
+
+/-- no element of the table has an empty type name (`LogTocElement.ctype` comes from the type table) -/
+def TocNE : Option Toc → Prop
+  | none => True
+  | some t => ∀ e ∈ t, e.ctype.length ≠ 0
+
+theorem mkVar_name {n : Nat} {f s : String} {b : Bool} {a : Nat} {v : LVar} (h : mkVar n f b s a = .ok v) : v.name = n := by
+  unfold mkVar at h
+  split at h
+  · cases h
+  · split at h
+    · cases h; rfl
+    · split at h
+      · cases h
+      · cases h; rfl
+
+/-- one resolution step moves the name from the head of `default_fetch_as` to the tail of `variables` -/
+theorem resolveDefaults_cfg (toc : Option Toc) (hq : TocNE toc) : ∀ (ds : List Nat) (c : Conf), c.defaults = ds →
+    cfgOf (resolveDefaults toc ds c).1 = cfgOf c := by
+  intro ds
+  induction ds with
+  | nil => intro c _; rfl
+  | cons n ds ih =>
+    intro c hc
+    simp only [resolveDefaults]
+    split
+    · rfl
+    · rfl
+    · rename_i el hl
+      have hne : el.ctype.length ≠ 0 := by
+        cases toc with
+        | none => simp [lookup] at hl
+        | some t =>
+          simp only [lookup, Except.ok.injEq] at hl
+          exact hq el (byName_mem hl)
+      split
+      · rfl
+      · rename_i c' hc'
+        unfold Conf.addVariable at hc'
+        rw [if_pos hne] at hc'
+        split at hc'
+        · rename_i v hv
+          cases hc'
+          have hname := mkVar_name hv
+          rw [ih _ (by simp [hc])]
+          simp [cfgOf, hc, hname]
+        · cases hc'
+
+theorem addVariable_prefix {c c' : Conf} {n : Nat} {t : String} (h : c.addVariable n t = .ok c') :
+    ∃ ext, c'.variables = c.variables ++ ext := by
+  unfold Conf.addVariable at h
+  split at h
+  · split at h
+    · cases h; exact ⟨_, rfl⟩
+    · cases h
+  · cases h; exact ⟨[], by simp⟩
+
+/-- resolution only ever appends to `variables` -/
+theorem resolveDefaults_prefix (toc : Option Toc) : ∀ (ds : List Nat) (c : Conf),
+    ∃ ext, (resolveDefaults toc ds c).1.variables = c.variables ++ ext := by
+  intro ds
+  induction ds with
+  | nil => intro c; exact ⟨[], by simp [resolveDefaults]⟩
+  | cons n ds ih =>
+    intro c
+    simp only [resolveDefaults]
+    split
+    · exact ⟨[], by simp⟩
+    · exact ⟨[], by simp⟩
+    · split
+      · exact ⟨[], by simp⟩
+      · rename_i c' hc'
+        obtain ⟨e1, h1⟩ := addVariable_prefix hc'
+        obtain ⟨e2, h2⟩ := ih { c' with defaults := c'.defaults.erase n }
+        exact ⟨e1 ++ e2, by rw [h2]; simp [h1]⟩
+
+theorem insens_cfg : Insens cfgOf := ⟨fun _ _ => rfl, fun _ _ => rfl, fun _ _ => rfl, fun _ _ => rfl, fun _ _ _ _ => rfl⟩
+theorem insensFlags_cfg : InsensFlags cfgOf := ⟨fun _ _ => rfl, fun _ _ => rfl⟩
+theorem insens_take (m : Nat) : Insens (fun c : Conf => c.variables.take m) :=
+  ⟨fun _ _ => rfl, fun _ _ => rfl, fun _ _ => rfl, fun _ _ => rfl, fun _ _ _ _ => rfl⟩
+theorem insensFlags_take (m : Nat) : InsensFlags (fun c : Conf => c.variables.take m) := ⟨fun _ _ => rfl, fun _ _ => rfl⟩
+
+theorem addConfig_keeps_cfg (k : Nat) : AddKeeps TocNE (fun _ => True) cfgOf k :=
+  addConfig_keeps insens_cfg (fun toc c hq _ => resolveDefaults_cfg toc hq c.defaults c rfl)
+
+theorem addConfig_keeps_take (k m : Nat) :
+    AddKeeps (fun _ => True) (fun l : List LVar => l.length = m) (fun c : Conf => c.variables.take m) k :=
+  addConfig_keeps (insens_take m) (fun toc c _ hp => by
+    obtain ⟨ext, he⟩ := resolveDefaults_prefix toc c.defaults c
+    have hm : m ≤ c.variables.length := by
+      have : (c.variables.take m).length = m := hp
+      rw [List.length_take] at this; omega
+    show (resolveDefaults toc c.defaults c).1.variables.take m = c.variables.take m
+    rw [he, List.take_append_of_le_length hm])
+
+/-- every table the Log holds during the history satisfies `q` -/
+def TocsOk (q : Option Toc → Prop) : St → List Op → Prop
+  | st, [] => q st.toc
+  | st, op :: ops => q st.toc ∧ (match step st op with
+    | none => TocsOk q st ops
+    | some r => TocsOk q r.st ops)
+
+/-- generic history lemma: a projection kept by every step is kept by every history -/
+theorem run_keeps {α : Type} {q : Option Toc → Prop} {p : α → Prop} {f : Conf → α} {k : Nat}
+    (hI : Insens f) (hF : InsensFlags f) (hadd : AddKeeps q p f k) :
+    ∀ (ops : List Op) (st : St) (c : Conf), st.conf? k = some c → p (f c) → TocsOk q st ops →
+      (∀ op ∈ ops, op.editsVars k = false) → ∃ c', (run st ops).1.conf? k = some c' ∧ f c' = f c := by
+  intro ops
+  induction ops with
+  | nil => intro st c hk _ _ _; exact ⟨c, hk, rfl⟩
+  | cons op ops ih =>
+    intro st c hk hp hq hed
+    simp only [run]
+    simp only [TocsOk] at hq
+    cases hs : step st op with
+    | none =>
+      rw [hs] at hq
+      exact ih st c hk hp hq.2 (fun o ho => hed o (by simp [ho]))
+    | some r =>
+      rw [hs] at hq
+      obtain ⟨c1, h1, h2⟩ := step_keeps hI hadd st op r hq.1 hs (hed op (by simp)) (Or.inl hF) c hk hp
+      obtain ⟨c2, h3, h4⟩ := ih r.st c1 h1 (by rw [h2]; exact hp) hq.2 (fun o ho => hed o (by simp [ho]))
+      exact ⟨c2, h3, by rw [h4, h2]⟩
+
+/-- the exact partial effect of a resolution loop that stops at the first missing name -/
+theorem resolve_partial (toc : Toc) (hwf : TocWF toc) : ∀ (pre : List Nat) (n : Nat) (post : List Nat) (c : Conf),
+    c.defaults = pre ++ n :: post → (∀ m ∈ pre, toc.has m) → ¬ toc.has n →
+    resolveDefaults (some toc) (pre ++ n :: post) c =
+      ({ c with variables := c.variables ++ resolvedVars toc pre, defaults := n :: post, valid := false }, some .keyError) := by
+  intro pre
+  induction pre with
+  | nil =>
+    intro n post c hc _ hn
+    have hb : toc.byName n = none := by
+      cases hb : toc.byName n with
+      | none => rfl
+      | some el => exact absurd ((byName_isSome_iff toc n).mp (by rw [hb]; rfl)) hn
+    cases c
+    simp only at hc; subst hc
+    simp [resolveDefaults, lookup, hb, resolvedVars]
+  | cons m pre ih =>
+    intro n post c hc hpre hn
+    have hm := hpre m (by simp)
+    cases hb : toc.byName m with
+    | none => exact absurd hm (by rw [← byName_isSome_iff, hb]; simp)
+    | some el =>
+      obtain ⟨v, hv, _, _, _, hadd⟩ := resolve_step toc hwf c m el hb
+      have hstep : resolveDefaults (some toc) (m :: pre ++ n :: post) c =
+          resolveDefaults (some toc) (pre ++ n :: post) { c with variables := c.variables ++ [v], defaults := pre ++ n :: post } := by
+        simp only [List.cons_append, resolveDefaults, lookup, hb, hadd, hc, List.erase_cons_head]
+      rw [hstep, ih n post _ rfl (fun x hx => hpre x (by simp [hx])) hn]
+      simp [resolvedVars, hv, List.append_assoc]
+
+end CfVerif.C05
+
+namespace CfVerif.C05
+open CfVerif Spec
+
+/-! ## which operations change the table the Log holds -/
+
+theorem setAdded_toc (st : St) (h : Nat) (v : Bool) : (setAdded st h v).1.toc = st.toc := by
+  unfold setAdded; split <;> rfl
+theorem setStarted_toc (st : St) (h : Nat) (v : Bool) : (setStarted st h v).1.toc = st.toc := by
+  unfold setStarted; split <;> rfl
+
+theorem onSettings_toc (st : St) (cmd id status : Nat) :
+    (onSettings st cmd id status).st.toc = st.toc ∨ (onSettings st cmd id status).st.toc = some [] := by
+  unfold onSettings
+  simp only
+  split
+  · split
+    · exact Or.inl rfl
+    · split
+      · exact Or.inl rfl
+      · split
+        · split
+          · split
+            · exact Or.inl rfl
+            · simp only
+              left
+              split
+              · show (setAdded st _ true).1.toc = st.toc; exact setAdded_toc st _ true
+              · exact setAdded_toc st _ true
+          · exact Or.inl rfl
+        · split <;> exact Or.inl rfl
+  · split
+    · split
+      · split
+        · exact Or.inl rfl
+        · exact Or.inl (setStarted_toc st _ true)
+      · split
+        · split
+          · exact Or.inl rfl
+          · split <;> exact Or.inl rfl
+        · exact Or.inl rfl
+    · split
+      · split
+        · split
+          · exact Or.inl rfl
+          · exact Or.inl (setStarted_toc st _ false)
+        · exact Or.inl rfl
+      · split
+        · split
+          · split
+            · exact Or.inl rfl
+            · simp only
+              left
+              rw [setAdded_toc, setStarted_toc]
+          · exact Or.inl rfl
+        · split
+          · split
+            · exact Or.inr rfl
+            · exact Or.inl rfl
+          · exact Or.inl rfl
+
+theorem deliver_toc (h ts : Nat) (vals : List (Nat × Val)) : ∀ (l : List Nat) (st : St),
+    (deliver h ts vals l st).1.toc = st.toc := by
+  intro l
+  induction l with
+  | nil => intro st; rfl
+  | cons s ss ih =>
+    intro st
+    simp only [deliver]
+    split
+    · exact ih st
+    · simp only; rw [ih]
+
+theorem onLogData_toc (st : St) (data : List UInt8) : (onLogData st data).st.toc = st.toc := by
+  unfold onLogData
+  split
+  · rfl
+  · split
+    · dsimp only
+      split
+      · rfl
+      · split
+        · rfl
+        · split
+          · rfl
+          · simp only; exact deliver_toc _ _ _ _ _
+    · rfl
+    · rfl
+
+theorem newPacket_toc (st : St) (chan : Nat) (data : List UInt8) :
+    (newPacket st chan data).st.toc = st.toc ∨ (newPacket st chan data).st.toc = some [] := by
+  unfold newPacket
+  split
+  · exact Or.inl rfl
+  · split
+    · split
+      · exact onSettings_toc st _ _ _
+      · exact Or.inl rfl
+    · split
+      · exact Or.inl (onLogData_toc st _)
+      · exact Or.inl rfl
+
+theorem slConnectLoop_toc (s : Nat) : ∀ (hs : List Nat) (st : St) (r : Res),
+    slConnectLoop s hs st = some r → r.st.toc = st.toc := by
+  intro hs
+  induction hs with
+  | nil => intro st r h; simp only [slConnectLoop] at h; cases h; rfl
+  | cons h hs ih =>
+    intro st r hr
+    simp only [slConnectLoop] at hr
+    split at hr
+    · cases hr
+    · rename_i r1 h1
+      have t1 := addConfig_toc h1
+      split at hr
+      · cases hr; exact t1
+      · split at hr
+        · cases hr
+        · split at hr
+          · cases hr
+          · rename_i r2 h2
+            have t2 : r2.st.toc = st.toc := by rw [start_toc h2]; exact t1
+            split at hr
+            · cases hr; exact t2
+            · split at hr
+              · cases hr
+              · rename_i r3 h3
+                cases hr
+                show r3.st.toc = st.toc
+                rw [ih r2.st r3 h3, t2]
+
+theorem slConnect_toc {st : St} {s : Nat} {r : Res} (hr : slConnect st s = some r) : r.st.toc = st.toc := by
+  unfold slConnect at hr
+  split at hr
+  · cases hr
+  · split at hr
+    · cases hr; rfl
+    · simp only at hr
+      split at hr
+      · cases hr
+      · rename_i r1 h1
+        have t1 := slConnectLoop_toc s _ { st with discCbs := callerAdd st.discCbs s } r1 h1
+        split at hr
+        · cases hr; exact t1
+        · split at hr
+          · cases hr
+          · cases hr; exact t1
+
+theorem slDisconnectLoop_toc (s : Nat) : ∀ (hs : List Nat) (st : St) (r : Res),
+    slDisconnectLoop s hs st = some r → r.st.toc = st.toc := by
+  intro hs
+  induction hs with
+  | nil => intro st r h; simp only [slDisconnectLoop] at h; cases h; rfl
+  | cons h hs ih =>
+    intro st r hr
+    simp only [slDisconnectLoop] at hr
+    split at hr
+    · cases hr
+    · rename_i r1 h1
+      have e1 : r1.st = st := simpleCmd_st h1
+      split at hr
+      · cases hr; rw [e1]
+      · split at hr
+        · cases hr
+        · rename_i r2 h2
+          have e2 : r2.st = st := by rw [simpleCmd_st h2, e1]
+          split at hr
+          · cases hr; show r2.st.toc = st.toc; rw [e2]
+          · split at hr
+            · cases hr
+            · split at hr
+              · split at hr
+                · cases hr
+                · rename_i r3 h3
+                  cases hr
+                  show r3.st.toc = st.toc
+                  rw [ih _ r3 h3]; show r2.st.toc = st.toc; rw [e2]
+              · cases hr; show r2.st.toc = st.toc; rw [e2]
+
+theorem slDisconnect_toc {st : St} {s : Nat} {r : Res} (hr : slDisconnect st s = some r) : r.st.toc = st.toc := by
+  unfold slDisconnect at hr
+  split at hr
+  · cases hr
+  · split at hr
+    · cases hr; rfl
+    · split at hr
+      · cases hr
+      · rename_i r1 h1
+        have t1 := slDisconnectLoop_toc s _ _ r1 h1
+        split at hr
+        · cases hr; exact t1
+        · split at hr
+          · split at hr
+            · cases hr
+            · cases hr; exact t1
+          · cases hr; exact t1
+
+theorem slDisconnected_toc {st : St} {s : Nat} {r : Res} (hr : slDisconnected st s = some r) : r.st.toc = st.toc := by
+  unfold slDisconnected at hr
+  split at hr
+  · cases hr
+  · rename_i r1 h1
+    have t1 := slDisconnect_toc h1
+    split at hr
+    · cases hr; exact t1
+    · split at hr
+      · cases hr
+      · cases hr; exact t1
+
+theorem callDisconnected_toc : ∀ (ss : List Nat) (st : St) (r : Res), callDisconnected ss st = some r → r.st.toc = st.toc := by
+  intro ss
+  induction ss with
+  | nil => intro st r h; simp only [callDisconnected] at h; cases h; rfl
+  | cons s ss ih =>
+    intro st r hr
+    simp only [callDisconnected] at hr
+    split at hr
+    · cases hr
+    · rename_i r1 h1
+      have t1 := slDisconnected_toc h1
+      split at hr
+      · cases hr; exact t1
+      · split at hr
+        · cases hr
+        · rename_i r2 h2
+          cases hr
+          show r2.st.toc = st.toc
+          rw [ih r1.st r2 h2, t1]
+
+/-- the table the Log holds changes only by `refresh_toc` (None), the reset acknowledgement (a fresh empty
+Toc) and the completed download (`setToc`) -/
+theorem step_toc (st : St) (op : Op) (r : Res) (hs : step st op = some r) :
+    r.st.toc = st.toc ∨ r.st.toc = none ∨ r.st.toc = some [] ∨ ∃ t, op = .setToc t ∧ r.st.toc = some t := by
+  cases op with
+  | newConf ms => simp only [step] at hs; cases hs; exact Or.inl rfl
+  | addVar h n t =>
+    simp only [step] at hs
+    split at hs
+    · cases hs
+    · split at hs <;> (cases hs; exact Or.inl rfl)
+  | addMem h n t s a =>
+    simp only [step] at hs
+    split at hs
+    · cases hs
+    · split at hs <;> (cases hs; exact Or.inl rfl)
+  | addConfig h => exact Or.inl (addConfig_toc hs)
+  | start h => exact Or.inl (start_toc hs)
+  | stop h => exact Or.inl (by rw [simpleCmd_st hs])
+  | delete h => exact Or.inl (by rw [simpleCmd_st hs])
+  | rx chan data =>
+    simp only [step] at hs; cases hs
+    rcases newPacket_toc st chan data with h | h
+    · exact Or.inl h
+    · exact Or.inr (Or.inr (Or.inl h))
+  | reset => simp only [step] at hs; cases hs; exact Or.inl rfl
+  | refresh ver => simp only [step] at hs; cases hs; exact Or.inr (Or.inl rfl)
+  | setToc t =>
+    simp only [step] at hs
+    split at hs
+    · cases hs; exact Or.inr (Or.inr (Or.inr ⟨t, rfl, rfl⟩))
+    · cases hs
+  | linkUp => simp only [step] at hs; cases hs; exact Or.inl rfl
+  | linkLost =>
+    simp only [step, linkLost] at hs
+    exact Or.inl (callDisconnected_toc _ { st with link := false } r hs)
+  | newSl confs =>
+    simp only [step] at hs
+    split at hs
+    · cases hs; exact Or.inl rfl
+    · cases hs
+  | slConnect s => exact Or.inl (slConnect_toc hs)
+  | slDisconnect s => exact Or.inl (slDisconnect_toc hs)
+  | slNext s =>
+    simp only [step, slNext] at hs
+    split at hs
+    · cases hs
+    · split at hs
+      · cases hs; exact Or.inl rfl
+      · split at hs
+        · cases hs; exact Or.inl rfl
+        · split at hs <;> (cases hs; exact Or.inl rfl)
+
+/-- if the initial table and every table installed by a completed download have no empty type name, so has
+every table the Log holds during the history -/
+theorem tocsOk_of_ops : ∀ (ops : List Op) (st : St), TocNE st.toc → (∀ t, Op.setToc t ∈ ops → TocNE (some t)) →
+    TocsOk TocNE st ops := by
+  intro ops
+  induction ops with
+  | nil => intro st h _; exact h
+  | cons op ops ih =>
+    intro st h0 hset
+    refine ⟨h0, ?_⟩
+    cases hs : step st op with
+    | none => exact ih st h0 (fun t ht => hset t (by simp [ht]))
+    | some r =>
+      refine ih r.st ?_ (fun t ht => hset t (by simp [ht]))
+      rcases step_toc st op r hs with h | h | h | ⟨t, rfl, h⟩
+      · rw [h]; exact h0
+      · rw [h]; trivial
+      · rw [h]; intro e he; cases he
+      · rw [h]; exact hset t (by simp)
+
+end CfVerif.C05
+
+namespace CfVerif.C05
+open CfVerif Spec
+
+theorem tocsOk_true : ∀ (ops : List Op) (st : St), TocsOk (fun _ => True) st ops := by
+  intro ops
+  induction ops with
+  | nil => intro st; trivial
+  | cons op ops ih =>
+    intro st
+    refine ⟨trivial, ?_⟩
+    cases step st op with
+    | none => exact ih st
+    | some r => exact ih r.st
+
+theorem resolvedVars_names (toc : Toc) (hwf : TocWF toc) : ∀ (ds : List Nat), (∀ n ∈ ds, toc.has n) →
+    (resolvedVars toc ds).map (·.name) = ds := by
+  intro ds
+  induction ds with
+  | nil => intro _; rfl
+  | cons n ds ih =>
+    intro h
+    have hn := h n (by simp)
+    cases hb : toc.byName n with
+    | none => exact absurd hn (by rw [← byName_isSome_iff, hb]; simp)
+    | some el =>
+      obtain ⟨v, hv, _, _, hname, _⟩ := resolve_step toc hwf { period := 0 } n el hb
+      have := ih (fun m hm => h m (by simp [hm]))
+      simp only [resolvedVars] at this ⊢
+      simp [hv, hname, this]
+
+/-- the configured list and the already typed variables survive every history without add_variable/add_memory -/
+theorem run_cfg (st : St) (k : Nat) (c : Conf) (ops : List Op) (hk : st.conf? k = some c)
+    (h0 : TocNE st.toc) (hset : ∀ t, Op.setToc t ∈ ops → TocNE (some t))
+    (hno : ∀ op ∈ ops, op.editsVars k = false) :
+    ∃ c', (run st ops).1.conf? k = some c' ∧ cfgOf c' = cfgOf c ∧ c.variables <+: c'.variables := by
+  obtain ⟨c1, h1, e1⟩ := run_keeps insens_cfg insensFlags_cfg (addConfig_keeps_cfg k) ops st c hk trivial
+    (tocsOk_of_ops ops st h0 hset) hno
+  obtain ⟨c2, h2, e2⟩ := run_keeps (insens_take c.variables.length) (insensFlags_take c.variables.length)
+    (addConfig_keeps_take k c.variables.length) ops st c hk (by simp) (tocsOk_true ops st) hno
+  rw [h1] at h2; cases h2
+  refine ⟨c1, h1, e1, ?_⟩
+  simp only [List.take_length] at e2
+  rw [← e2]
+  exact List.take_prefix _ _
 
 end CfVerif.C05
